@@ -170,6 +170,7 @@ class Session:
         self.p = fw.Proc(harness_path, env=env)
         self.dumps = {}      # reg -> harness dump
         self.sizes = {}      # reg -> number of nodes of the unfolded dump
+        self.anomalies = []  # (what, how) noticed inside helpers that have no ctx; reported by c02.monitor
         self.models = {}     # reg -> model tree | exception
         self.raw_versions = []
         self.texts = {}
